@@ -496,6 +496,18 @@ fn read_operations_since_from_file(
                 total_size,
                 no_more_smaller
             );
+            // One id can be written for several records, start at the first record of that id
+            while opp_time == since && seek_point >= size_as_u64 {
+                let mut previous_time = [0; OP_TIME_SIZE];
+                f.seek(SeekFrom::Start(seek_point - size_as_u64)).unwrap();
+                f.read(&mut previous_time).unwrap();
+                if u64::from_le_bytes(previous_time) != since {
+                    break;
+                }
+                seek_point = seek_point - size_as_u64;
+            }
+            f.seek(SeekFrom::Start(seek_point + OP_TIME_SIZE as u64))
+                .unwrap();
             while let Ok(byte_read) = f.read(&mut key_buffer) {
                 if byte_read == 0 {
                     break;
